@@ -106,6 +106,9 @@ def detect(pid, m, props):
         print("refusing: /repo has local changes:\n" + out)
         sys.exit(2)
     pf = os.path.join(d, "patch.diff")
+    if os.path.exists(os.path.join(d, "patch.rebased.diff")):  # same change, re-made by hand on the current tree after hook/fix commits moved its context
+        pf = os.path.join(d, "patch.rebased.diff")
+        meta["applied_to_repo_with"] = "patch.rebased.diff (the sub-agent's change re-made on the current tree)"
     rc, out = sh("git apply %s" % pf, cwd="/repo")
     if rc != 0:  # the hook commits added lines next to some patched lines: retry with less context
         rc, out = sh("git apply -C1 --recount %s" % pf, cwd="/repo")
